@@ -19,10 +19,11 @@ import time
 
 HERE = os.path.dirname(os.path.dirname(os.path.abspath(__file__)))
 SRC = os.environ.get('DZNPY_SRC', '/repo/src')
+SIDE = tempfile.mkdtemp(prefix='dznpy-verif-side-')
 
 
 def run_check(prop, tier, src):
-    env = dict(os.environ, DZNPY_SRC=src, VERIF_EVIDENCE_DIR='')
+    env = dict(os.environ, DZNPY_SRC=src, VERIF_EVIDENCE_DIR=SIDE, VERIF_REPLAY_DIR=SIDE + '/replay')
     t0 = time.time()
     proc = subprocess.run([os.path.join(HERE, 'check'), prop, '--tier', tier], cwd=HERE, env=env,
                           capture_output=True, text=True, timeout=3600)
@@ -38,9 +39,6 @@ def main():
     args = ap.parse_args()
     muts = json.load(open(args.file, encoding='utf-8'))
     results = []
-    # evidence files are rewritten by every check run: keep the real ones aside
-    keep = tempfile.mkdtemp(prefix='dznpy-verif-evkeep-')
-    shutil.copytree(os.path.join(HERE, 'evidence'), os.path.join(keep, 'evidence'))
     try:
         for mut in muts:
             if args.only and args.only not in mut['name']:
@@ -70,10 +68,7 @@ def main():
             finally:
                 shutil.rmtree(scratch, ignore_errors=True)
     finally:
-        shutil.rmtree(os.path.join(HERE, 'evidence'), ignore_errors=True)
-        shutil.copytree(os.path.join(keep, 'evidence'), os.path.join(HERE, 'evidence'))
-        shutil.rmtree(keep, ignore_errors=True)
-        shutil.rmtree(os.path.join(HERE, 'replay'), ignore_errors=True)
+        shutil.rmtree(SIDE, ignore_errors=True)
     missed = [r for r in results if r[2] != 'caught']
     print(f'\n{len(results)} runs, {len(results) - len(missed)} caught, {len(missed)} not caught')
     return 1 if missed else 0
